@@ -43,8 +43,8 @@ pub fn left_padding(number: i64, size: usize) -> String {
 }
 
 pub fn format_number(number: f64, thousands_separator: String, decimal_separator: String, decimal_digits: u8, remove_fract_if_zero: bool, use_fract_rounding: bool) -> String {
-    let divider      = 10_u32.pow(decimal_digits.into());
-    let fract_number = do_divition((number * divider as f64).round(), divider as f64);
+    let divider      = 10_f64.powi(decimal_digits.into());
+    let fract_number = do_divition((number * divider).round(), divider);
     let trunc_part   = fract_number.trunc().abs().to_string();
 
     let formated_number = match use_fract_rounding {
